@@ -3,6 +3,7 @@ import SpoxModel.Lemmas.SubgraphNested
 import SpoxModel.Generated.SubgraphSpecs
 import SpoxModel.Generated.CallbackSites
 import SpoxModel.Generated.CallGraphData
+import SpoxModel.Generated.SubgraphInventory
 /-!
 # C19 — subgraph callbacks run exactly once, with the prescribed arguments
 
@@ -46,6 +47,33 @@ theorem modules_covered :
     resolves.all (fun r => table.any (fun e => e.1 == r.2.2 && e.2.1 == r.2.1)) = true
       ∧ (resolves.map (·.1)).eraseDups.all
           (fun m => ctorNames.all (fun c => resolves.any (fun r => r.1 == m && r.2.1 == c))) = true := by
+  decide
+
+/-- names of the callbacks a spec traces -/
+def tracedCallbacks (s : CtorSpec) : List String := s.subgraphs.map (·.1)
+
+/-- **Inventory of constructors, by signature.** Every top-level function of *every* opset module
+    (`ai.onnx` v17…v21 and `ai.onnx.ml`) that has a parameter annotated `Callable` or calls `subgraph` is
+    a row of `table` (so the theorems below speak about it), its `Callable` parameters are exactly the
+    callbacks its `subgraph(…)` calls trace (no callback parameter is ignored, nothing else is traced),
+    and `table` has no row that the inventory does not know. -/
+theorem callable_params_good :
+    Generated.SubgraphInventory.callableParams.all (fun e =>
+        table.any (fun t => t.1 == e.1 && t.2.1 == e.2.1
+          && e.2.2.all (fun p => (tracedCallbacks t.2.2).contains p)
+          && (tracedCallbacks t.2.2).all (fun p => e.2.2.contains p))) = true
+      ∧ table.all (fun t =>
+          Generated.SubgraphInventory.callableParams.any (fun e => e.1 == t.1 && e.2.1 == t.2.1)) = true := by
+  decide
+
+/-- **Attribute wiring.** In every constructor each subgraph traced from callback `X` is stored in the
+    node attribute `X` (`X=AttrGraph(<graph of X>, name="X")`), one attribute per traced callback. -/
+theorem attr_wiring_good :
+    Generated.SubgraphInventory.attrWiring.all (fun e =>
+        e.2.2.all (fun w => w.1 == w.2.1 && w.2.1 == w.2.2)
+          && table.any (fun t => t.1 == e.1 && t.2.1 == e.2.1
+              && (tracedCallbacks t.2.2).all (fun p => e.2.2.any (fun w => w.2.2 == p))
+              && e.2.2.length == (tracedCallbacks t.2.2).length)) = true := by
   decide
 
 /-- Call sites, other than `subgraph`, that could reach a stored callback — from the source. -/
